@@ -37,20 +37,24 @@ def run(ctx):
         stores = [x for x in g.nodes if x.kind == 'stmt' and (
             isinstance(x.ast, ast.Assign) and any(isinstance(t, ast.Subscript) and isinstance(t.value, ast.Attribute) and t.value.attr == '_dbvals_' for t in x.ast.targets)
             or any(isinstance(c.func, ast.Attribute) and c.func.attr in ('pop', 'update') and isinstance(c.func.value, ast.Attribute) and c.func.value.attr == '_dbvals_' for c in x.calls()))]
-        tests = [t for t in g.nodes if t.kind == 'test' and isinstance(t.ast, ast.BinOp) and isinstance(t.ast.op, ast.BitAnd)
-                 and norm(t.ast.left).endswith(('_rbits_', 'rbits')) and norm(t.ast.right) == 'bit']
+        from ..typestate import scenario_edges
+        from ..q import alias_map
+        am = alias_map(f.node)
+        rb_names = {n_ for n_, src in am.items() if src.endswith('._rbits_')} | {'rbits'}
+        def read_atom(text, node):
+            # "this attribute was read": <obj>._rbits_ & bit (or through a local alias of _rbits_) is truthy
+            if isinstance(node, ast.BinOp) and isinstance(node.op, ast.BitAnd) and norm(node.right) == 'bit' and (norm(node.left).endswith('._rbits_') or norm(node.left) in rb_names): return True
+            return None
+        eo = scenario_edges(g, f.node, read_atom)
         bitdefs = [s for s in walk_no_nested(f.node) if isinstance(s, ast.Assign) and any(dotted(t) == 'bit' for t in s.targets)]
-        src_ok = bool(bitdefs) and all('_bits_except_volatile_' in norm(s.value) for s in bitdefs)
+        src_ok = bool(bitdefs) and all('_bits_except_volatile_' in norm(s.value) or norm(s.value).split('[')[0] in {n_ for n_, src in am.items() if src.endswith('._bits_except_volatile_')} for s in bitdefs)
         thr = throws(g, 'UnrepeatableReadError')
         ctx.floor('C21-OVERWRITE', len(stores), 1, 'stores into _dbvals_ in %s' % qual)
+        has_test = any(read_atom(norm(x), x) for t in g.nodes if t.kind in ('test', 'stmt') and t.ast is not None for x in ast.walk(t.ast) if isinstance(x, ast.BinOp))
+        rr = g.reach([g.entry], edge_ok=eo)
         for s in stores:
             n += 1
-            tids = {t.id for t in tests}
-            rr = g.reach([g.entry], edge_ok=lambda x, y, lab: not (x in tids and lab == 'F'))
-            ok = bool(tests) and s.id not in rr and src_ok
-            for t in tests:
-                ts = [y for y, lab in g.succ[t.id] if lab == 'T']
-                if not thr or g.exit.id in g.reach(ts) or s.id in g.reach(ts): ok = False
+            ok = has_test and bool(thr) and s.id not in rr and src_ok and any(t.id in rr for t in thr)
             ctx.ob('C21-OVERWRITE.value-read-is-not-silently-replaced', f, s.ast, ok,
                    '' if ok else 'the database value remembered for an attribute can be overwritten without passing `if rbits & bit: throw(UnrepeatableReadError)` '
                    '(bit from _bits_except_volatile_: %s)' % src_ok, node=s.ast)
@@ -76,31 +80,40 @@ def run(ctx):
         f = repo.fn(CORE, qual); g = cg.cfg(f)
         full = [x for x in g.nodes if x.kind == 'stmt' and isinstance(x.ast, ast.Assign) and any(isinstance(t, ast.Attribute) and t.attr == 'is_fully_loaded' for t in x.ast.targets)
                 and isinstance(x.ast.value, ast.Constant) and x.ast.value.value is True]
-        ph = [t for t in g.nodes if t.kind == 'test' and norm(t.ast) == 'phantoms and (not attr.is_volatile)' or t.kind == 'test' and norm(t.ast) == 'phantoms and not attr.is_volatile']
         ex = nodes_calling(g, lambda c: isinstance(c.func, ast.Attribute) and c.func.attr == '_exec_sql')
-        ok = bool(full) and bool(ph) and bool(ex)
-        detail = ''
-        for t in ph:
-            ts = [y for y, lab in g.succ[t.id] if lab == 'T']
-            if g.exit.id in g.reach(ts): ok = False; detail = 'phantom test does not throw'
-        # after every query, the merge `setdataX |= items` is preceded by a phantom test unless the SetData is fresh
+        # scenario: the collection was known before (its SetData is not fresh), it is not volatile, and rows the session had seen are missing
+        # from the result (`phantoms` non-empty): no merge of the loaded rows is reachable after the query -- UnrepeatableReadError instead
+        from ..typestate import scenario_edges
+        def ph_atom(text, node):
+            if text == 'phantoms': return True
+            if text == 'attr.is_volatile': return False
+            if text.startswith('setdata') and text.endswith(' is None'): return False
+            if text.startswith('setdata') and text.endswith(' is not None'): return True
+            return None
+        eo = scenario_edges(g, f.node, ph_atom)
         merges = [x for x in g.nodes if x.kind == 'stmt' and isinstance(x.ast, ast.AugAssign) and isinstance(x.ast.op, ast.BitOr) and norm(x.ast.value) == 'items']
-        fresh = {t.id for t in g.nodes if t.kind == 'test' and norm(t.ast).endswith(' is None') and norm(t.ast).startswith('setdata')}
-        phid = {t.id for t in ph}
+        thr = throws(g, 'UnrepeatableReadError')
+        ph = [t for t in g.nodes if t.kind == 'test' and any(isinstance(x, ast.Name) and x.id == 'phantoms' for x in ast.walk(t.ast))]
+        ok = bool(full) and bool(ph) and bool(ex) and bool(thr)
+        detail = ''
+        srcs = [y for e in ex for y, lab in g.succ[e.id] if lab != 'exc']
+        rr = g.reach(srcs, edge_ok=eo)
         for mnode in merges:
-            srcs = [y for e in ex for y, lab in g.succ[e.id] if lab != 'exc']
-            rr = g.reach(srcs, edge_ok=lambda x, y, lab: not (x in phid and lab == 'F') and not (x in fresh and lab == 'T'))
-            if mnode.id in rr: ok = False; detail = 'loaded rows are merged at line %d without the phantom-disappeared test' % mnode.lineno
+            if mnode.id in rr: ok = False; detail = 'loaded rows are merged at line %d although items the session had seen disappeared (no phantom test on that path)' % mnode.lineno
+        if ok and not any(t.id in rr for t in thr): ok = False; detail = 'the phantom test does not lead to UnrepeatableReadError'
         ctx.ob('C21-PHANTOM.disappeared-item-detected-before-merge', f, ph[0].stmt if ph else f.node, ok, detail or ('' if ok else 'phantom check missing'))
     dra = repo.fn(CORE, 'Set.db_reverse_add'); g = cg.cfg(dra)
     adds = nodes_calling(g, lambda c: isinstance(c.func, ast.Attribute) and c.func.attr == 'add' and dotted(c.func.value) == 'setdata')
-    pt = {t.id for t in g.nodes if t.kind == 'test' and 'is_fully_loaded' in norm(t.ast) and 'is_volatile' in norm(t.ast)}
-    fr = {t.id for t in g.nodes if t.kind == 'test' and norm(t.ast) == 'setdata is None'}
-    rr = g.reach([g.entry], edge_ok=lambda x, y, lab: not (x in pt and lab == 'F') and not (x in fr and lab == 'T'))
-    ok = bool(adds) and bool(pt) and not any(a.id in rr for a in adds)
-    for t in pt:
-        ts = [y for y, lab in g.succ[t] if lab == 'T']
-        if g.exit.id in g.reach(ts) or any(a.id in g.reach(ts) for a in adds): ok = False
+    def ap_atom(text, node):
+        if text == 'setdata is None': return False
+        if text == 'setdata is not None': return True
+        if text == 'setdata.is_fully_loaded': return True
+        if text == 'attr.is_volatile': return False
+        return None
+    from ..typestate import scenario_edges
+    rr = g.reach([g.entry], edge_ok=scenario_edges(g, dra.node, ap_atom))
+    thr = throws(g, 'UnrepeatableReadError')
+    ok = bool(adds) and bool(thr) and not any(a.id in rr for a in adds) and any(t.id in rr for t in thr)
     ctx.ob('C21-PHANTOM.appeared-item-detected', dra, adds[0].ast if adds else dra.node, ok,
            '' if ok else 'an item can be added to a fully loaded, non-volatile collection from database rows without UnrepeatableReadError')
 
